@@ -73,7 +73,7 @@ type Case struct {
 // Programs whose sequential parse fails may leave their lexer goroutine
 // blocked for ever (known C07 behaviour); they are parsed at most this often
 // per case so that 10^5 cases do not accumulate goroutines.
-const invalidCap = 8
+const invalidCap = 8 // in total, spread over the first goroutines
 
 var (
 	racePkgs = []string{"github.com/krotik/ecal/parser", "github.com/krotik/ecal/interpreter"}
@@ -315,13 +315,13 @@ func (env *evalEnv) close() { closeProvider(env.erp, true) }
 
 // post sends the events from the given number of host goroutines and returns
 // the sorted outcome lines (log lines of the sinks and sink errors).
-func (env *evalEnv) post(events []Event, posters int, concurrent bool, start <-chan struct{}) []string {
+func (env *evalEnv) post(events []Event, posters int, start <-chan struct{}) []string {
 	var mu sync.Mutex
 	var errs []string
 	var wg sync.WaitGroup
 	proc := env.erp.Processor
 	stopKick := make(chan struct{})
-	if concurrent {
+	{
 		// Keep the pool ticking: a task queued between a worker's empty poll and its
 		// wait is only picked up at the next AddTask (known C09 behaviour), and
 		// AddEventAndWait would then wait for ever. The generated sink program
@@ -499,7 +499,7 @@ func runCase(c Case) *hx.Failure {
 			hx.E.Exclude("eval.main-not-runnable")
 			evalMode = false
 		} else {
-			expLines = env.post(c.Events, 1, false, nil)
+			expLines = env.post(c.Events, 1, nil)
 			env.close()
 			for _, l := range expLines {
 				if strings.HasPrefix(l, "ERROR") || strings.HasPrefix(l, "SKIPPED") || strings.Contains(l, "ECAL error") {
@@ -530,6 +530,7 @@ func runCase(c Case) *hx.Failure {
 	exp := make([]string, P)
 	quota := make([]int, P) // parses per goroutine
 	stable := make([]bool, P)
+	invalid := make([]bool, P)
 	nInvalid, nMap, nIfFor := 0, 0, 0
 	ifFor := make([]bool, P)
 	isMap := make([]bool, P)
@@ -548,7 +549,8 @@ func runCase(c Case) *hx.Failure {
 		quota[i] = 1 << 30
 		if strings.HasPrefix(exp[i], "ERROR") || strings.HasPrefix(exp[i], "PANIC") {
 			nInvalid++
-			quota[i] = (invalidCap + G - 1) / G
+			quota[i] = max(1, invalidCap/G) // only on the first invalidCap goroutines, see below
+			invalid[i] = true
 		} else if mapNodeRe.MatchString(exp[i]) {
 			isMap[i] = true
 			nMap++
@@ -647,7 +649,7 @@ func runCase(c Case) *hx.Failure {
 			n := 0
 			for i := 0; i < iters && !stop.Load(); i++ {
 				p := (g + i) % P
-				if done[p] >= quota[p] {
+				if done[p] >= quota[p] || invalid[p] && g >= invalidCap {
 					continue
 				}
 				done[p]++
@@ -669,7 +671,7 @@ func runCase(c Case) *hx.Failure {
 		wg.Add(1)
 		go func() {
 			defer wg.Done()
-			gotLines = env.post(c.Events, clamp(c.Posters, 1, 8), true, start)
+			gotLines = env.post(c.Events, clamp(c.Posters, 1, 8), start)
 		}()
 	}
 	close(start)
@@ -822,7 +824,7 @@ func checkRaceLog() *hx.Failure {
 func TestRegress(t *testing.T) { hx.Regress(t, runCase) }
 
 func drawCase(rt *rapid.T) Case {
-	g := &pgen{rt}
+	g := &pgen{rt: rt}
 	var c Case
 	thorough := hx.Thorough()
 
@@ -857,10 +859,21 @@ func drawCase(rt *rapid.T) Case {
 		c.Progs = append(c.Progs, p)
 	}
 	c.Goroutines = g.n("goroutines", 2, 16)
-	if thorough {
-		c.Reps = g.n("reps", 50, 500)
-	} else {
-		c.Reps = g.n("reps", 50, 200)
+	// every program is parsed 50-500 times; the total work of a case is bounded per tier
+	// (the race detector needs overlap, not repetition, and costs about 10x; the plain
+	// build, whose wrong-result oracle needs real collisions, repeats more)
+	maxReps, budget := 150, 1500
+	switch {
+	case thorough && raceEnabled:
+		maxReps, budget = 200, 2500
+	case thorough:
+		maxReps, budget = 500, 6000
+	case raceEnabled:
+		maxReps, budget = 80, 800
+	}
+	c.Reps = g.n("reps", 50, maxReps)
+	if n*c.Reps > budget {
+		c.Reps = max(50, budget/n)
 	}
 	c.Provider = g.pick("provider", []string{"none", "shared", "shared", "fresh"})
 	c.Pretty = g.n("pretty", 0, 3) == 0
